@@ -236,6 +236,14 @@ func genC12(t *rapid.T) *Case {
 			if pct(t, 40, "exclme") {
 				op.Opts = append(op.Opts, KV{"exclude_me", VBool(false)})
 			}
+			if pct(t, 30, "filtered") {
+				// receiver restrictions on top of the disclosure
+				for _, kv := range genPublishOpts(t, n) {
+					if _, dup := optGet(op.Opts, kv.K); !dup && kv.K != "acknowledge" && kv.K != "exclude_me" {
+						op.Opts = append(op.Opts, kv)
+					}
+				}
+			}
 			return op
 		case k < 72:
 			op := Op{K: "call", S: s, URI: proc, Args: genArgs(t, valOpts{}), Kw: genKw(t, valOpts{})}
